@@ -84,6 +84,7 @@ enum ModuleStatus {
         cycle_root: Module,
         ancestor_index: usize,
         async_evaluation_order: Option<usize>,
+        pending_async_dependencies: usize,
     },
     EvaluatingAsync {
         environment: Gc<DeclarativeEnvironment>,
@@ -1242,6 +1243,7 @@ impl SourceTextModule {
                 cycle_root: module_self.clone(),
                 ancestor_index: index,
                 async_evaluation_order: None,
+                pending_async_dependencies: 0,
             },
             _ => unreachable!("already asserted that this state is `Linked`. "),
         });
@@ -1344,6 +1346,16 @@ impl SourceTextModule {
             }
         }
 
+        // Every module of a cycle keeps its own [[PendingAsyncDependencies]] until the cycle root
+        // pops it from the stack in step 16.
+        if let ModuleStatus::Evaluating {
+            pending_async_dependencies: pending,
+            ..
+        } = &mut *self.status.borrow_mut()
+        {
+            *pending = pending_async_dependencies;
+        }
+
         // 12. If module.[[PendingAsyncDependencies]] > 0 or module.[[HasTLA]] is true, then
         if pending_async_dependencies > 0 || self.code.has_tla {
             {
@@ -1402,6 +1414,7 @@ impl SourceTextModule {
                             top_level_capability,
                             cycle_root,
                             async_evaluation_order,
+                            pending_async_dependencies,
                             context,
                             ..
                         } => if let Some(async_evaluation_order) = async_evaluation_order {
